@@ -11,7 +11,7 @@ NI = PARAMS.get('ni', 3)
 L = PARAMS.get('len', 2)
 FIRST = PARAMS.get('first', None)      # fix the first operator (parallel split)
 LAST_DIFF = None
-OPS = ['eq_x', 'eq_xy', 'dict_y', 'lam_x_gt', 'ord_x', 'ord_xy', 'rev_x', 'rev_yx', 'eq_ref', 'lam_b']
+OPS = ['eq_x', 'eq_xy', 'dict_y', 'lam_x_gt', 'ord_x', 'ord_xy', 'rev_x', 'rev_yx', 'eq_ref', 'lam_b', 'eq_ref_none']
 SEQS = [()] if FIRST is None else []
 for n in range(1, L + 1):
     for seq in itertools.product(range(len(OPS)), repeat=n):
@@ -96,6 +96,10 @@ def check(si: int, dead: int, pl: int, x0: int, x1: int, x2: int, x3: int, y0: i
             # equality filter on a referential attribute: reads the linked instance's identifier
             ops.append(where_eq(P_Id=k1))
             exp = [i for i in exp if ((pl >> insts.index(i)) & 1) and pv == k1]
+        elif name == 'eq_ref_none':
+            # equality filter with the value None: the instances whose referential attribute is unset (unlinked)
+            ops.append(where_eq(P_Id=None, x=k1) if len(seq) > 1 else where_eq(P_Id=None))
+            exp = [i for i in exp if not ((pl >> insts.index(i)) & 1) and (len(seq) == 1 or i.x == k1)]
         elif name == 'ord_x':
             ops.append(order_by('x')); exp = stable_sort(exp, lambda i: [i.x], False)
         elif name == 'ord_xy':
